@@ -62,9 +62,8 @@ Definition pos_check (tr : list event) (i : nat) : option viol :=
       match last_cancel_begin pre 0 None with
       | Some j =>
           let before := firstn j tr in
-          if existsb is_set_servers (skipn j pre) then None
-          else match find (fun t => count_cb pre t <? count_req before t) (req_tokens before) with
-               | Some t => Some (VIncompleteAtCancel t) | None => None end
+          match find (fun t => count_cb pre t <? count_req before t) (req_tokens before) with
+          | Some t => Some (VIncompleteAtCancel t) | None => None end
       | None => None
       end
   | _ => None
@@ -94,10 +93,10 @@ Definition complete_at_destroy (tr : list event) : Prop :=
   forall pre e post, tr = pre ++ e :: post -> (e = EvDestroyEnd \/ e = EvEnd) ->
     forall t, In (EvReq t) pre -> count_cb pre t = count_req pre t.
 (* when a top-level ares_cancel() returns, every request made before it was entered has been
-   completed (unless the server list was changed from a callback in between, see docs/C01.md) *)
+   completed *)
 Definition complete_at_cancel (tr : list event) : Prop :=
   forall before mid post, tr = before ++ EvCancelBegin :: mid ++ EvCancelEnd :: post ->
-    ~ In EvCancelBegin mid -> ~ In EvSetServers mid ->
+    ~ In EvCancelBegin mid ->
     forall t, In (EvReq t) before -> count_req before t <= count_cb (before ++ EvCancelBegin :: mid) t.
 
 Definition trace_ok (tr : list event) : Prop :=
